@@ -65,8 +65,7 @@ def handleCase (c : Case) : Verdict :=
       let wantOut := FloatText.padTo sp.minimumLength.toNat (sp.alignment == .left) (if sp.pad == 0 then 32 else sp.pad) rend
       let specStr := "rec=" ++ fmtUnits 8 wantFmt ++ " out=" ++ fmtUnits 8 wantOut
       let sp1 := specStr == obs && wantFmt == reff && (!isf || promoteOk bits dbits)
-      let known := if obs.startsWith "abort assert:" && (obs.splitOn "Format_buffer_too_small").length > 1 && rend.length ≥ 64 then "C13-rendering-64-or-longer" else ""
-      { corr := corr && fmtM == .ok reff, spec := sp1, model := m, known,
+      { corr := corr && fmtM == .ok reff, spec := sp1, model := m,
         why := if sp1 then "" else s!"output is not libc's rendering of {String.ofList (wantFmt.map Char.ofNat)} padded to the field",
         branch := s!"fmt.{c.get "route"}.{c.get "ty"}.{c.get "cls"}.{lenClass rend.length}", nontrivial := true }
   | "flt.from" | "flt.ss" =>
@@ -82,8 +81,7 @@ def handleCase (c : Case) : Verdict :=
       let (corr, m) := corrOutcome mo (if valid then some [37, letter] else none) c
       let specStr := if valid then "rec=" ++ fmtUnits 8 [37, letter] ++ " out=" ++ fmtUnits 8 rend else "throw bad_format"
       let sp1 := specStr == obs && (!valid || reff == [37, letter]) && (!isf || promoteOk bits dbits)
-      let known := if obs.startsWith "abort assert:" && (obs.splitOn "Format_buffer_too_small").length > 1 && rend.length ≥ 64 then "C13-rendering-64-or-longer" else ""
-      { corr, spec := sp1, model := m, known,
+      { corr, spec := sp1, model := m,
         why := if sp1 then "" else "text is not libc's rendering of the requested conversion",
         branch := s!"{c.op}.{ty}." ++ (if valid then lenClass rend.length else "badletter"), nontrivial := true }
   | "flt.parse" =>
